@@ -64,23 +64,35 @@ def confirm(sid, wt, outdir):
     return 0 if res["confirmed"] else 1
 
 
+ALT = os.environ.get("SEEDTEST_ALT")  # run in the scratch copy /tmp/alt/{repo,verif} (set up by hand) instead of /repo + /verif
+
+
 def detect(sdir, props):
+    if ALT:
+        return detect_in("/tmp/alt/repo", "/tmp/alt/verif", sdir, props, dict(ENV, VERIF_REPO="/tmp/alt/repo"))
+    return detect_in("/repo", "/verif", sdir, props, ENV)
+
+
+def detect_in(REPO, VERIF, sdir, props, env):
     patch = os.path.join(sdir, "patch.diff")
-    rc, out = sh("git status --short", cwd="/repo")
+    if ALT:
+        sh("git checkout -- .", cwd=REPO)
+        sh("rsync -a /verif/ /tmp/alt/verif/ --exclude build --exclude .git --exclude evidence --exclude harness/Cargo.toml --exclude harness/Cargo.lock")
+    rc, out = sh("git status --short", cwd=REPO)
     if out.strip():
-        print("/repo has uncommitted changes; refusing")
+        print(f"{REPO} has uncommitted changes; refusing")
         return 2
-    rc, out = sh(f"git apply {patch}", cwd="/repo")
+    rc, out = sh(f"git apply {patch}", cwd=REPO)
     if rc != 0:
         print("patch does not apply:", out)
         return 2
     results = {}
     # evidence written while the change is applied describes the patched tree: keep the unchanged tree's records
-    saved = {p: open(f"/verif/evidence/{p}.json").read() for p in props if os.path.exists(f"/verif/evidence/{p}.json")}
+    saved = {p: open(f"{VERIF}/evidence/{p}.json").read() for p in props if os.path.exists(f"{VERIF}/evidence/{p}.json")}
     try:
         for p in props:
             t0 = time.time()
-            rc, out = sh(f"./check {p} --tier quick", cwd="/verif", timeout=3000)
+            rc, out = sh(f"./check {p} --tier quick", cwd=VERIF, timeout=3000, env=env)
             lines = [l for l in out.splitlines() if l.startswith("VIOLATION") or l.startswith("KNOWN-FINDING") or l.startswith("[")]
             results[p] = {"exit": rc, "lines": lines[-4:], "wall_s": round(time.time() - t0)}
             replay = None
@@ -93,10 +105,10 @@ def detect(sdir, props):
                 results[p]["broken_kinds"] = sorted(set(b["kind"] for b in r.get("broken", [])))
             print(p, results[p])
     finally:
-        sh("git checkout -- .", cwd="/repo")
+        sh("git checkout -- .", cwd=REPO)
         for p, txt in saved.items():
-            open(f"/verif/evidence/{p}.json", "w").write(txt)
-        sh("python3 tools/translate.py >/dev/null", cwd="/verif")
+            open(f"{VERIF}/evidence/{p}.json", "w").write(txt)
+        sh("python3 tools/translate.py >/dev/null", cwd=VERIF, env=env)
     mp = os.path.join(sdir, "meta.json")
     meta = json.load(open(mp)) if os.path.exists(mp) else {}
     # merge with earlier runs (a later run replaces the entry of the properties it ran)
